@@ -18,7 +18,7 @@ LEVEL = "model_checking"
 
 def run(ctx):
     ctx.build(["c10"])
-    paths, rs = xcommon.explore(ctx, "c10", "X_C10", 150, 3000, lifted=True)
+    paths, rs = xcommon.explore(ctx, "c10", "X_C10", 300, 3000, lifted=True)
     phis = 0
     outc = {}
     for p in paths:
